@@ -10,14 +10,11 @@ from checklib import Suite, Check
 from checks import distlib
 
 
-def main(tier=None):
-    c = Check("C09", ["Wasp.Properties.C09", "Wasp.Properties.Facts.C09"], tier)
-    c.build()
+def add_origin_receiver_suites(c, samples, nscripts_quick_or_thorough=None):
     rng = c.rng
-    samples = []
     for lazy in (False, True):
         ops, cases, cmp_idx = [], 0, []
-        nscripts = (250 if c.tier == "quick" else 4000)
+        nscripts = nscripts_quick_or_thorough or (250 if c.tier == "quick" else 4000)
         for _ in range(nscripts):
             ops.append("reset")
             if lazy:
@@ -57,6 +54,14 @@ def main(tier=None):
         name = "origin-receiver-" + ("lazy-drain" if lazy else "eager-drain")
         c.run_suite(Suite(name, "dist", ops, mon, {"cases": cases, "nontrivial": cases}, resets=("reset",)))
         samples.append({"suite": name, "ops": ops[:16]})
+
+
+def main(tier=None):
+    c = Check("C09", ["Wasp.Properties.C09", "Wasp.Properties.Facts.C09"], tier)
+    c.build()
+    rng = c.rng
+    samples = []
+    add_origin_receiver_suites(c, samples)
     c.assumptions += ["origin clock strictly increasing and positive (the harness clock: 10 per operation)",
                       "memberlist.TransmitLimitedQueue is used as is (RetransmitMult 1, one node) — modelled as a bag of payloads"]
     return c.finish(samples=samples,
